@@ -1,0 +1,60 @@
+//go:build verif
+
+// Machine-checked contracts (comment-only; compiled only under the build tag "verif").
+// C08: admission holds back every release change of a workload that an active Rollout references.
+package mutating
+
+//@ track (*WorkloadHandler).fetchMatchedRollout as fetch
+//@ track github.com/openkruise/rollouts/pkg/util.EqualIgnoreHash as sameTemplate
+
+//@ define isZeroTime(t) = t == nil || t.Time == 0
+//@ define activeRollout(ro) = isZeroTime(ro.DeletionTimestamp) && ro.Status.Phase != "Disabled"
+//@ define refMatches(ro, group, kind, name) = gvOk(ro.Spec.WorkloadRef.APIVersion) && gvGroup(ro.Spec.WorkloadRef.APIVersion) == group && ro.Spec.WorkloadRef.Kind == kind && ro.Spec.WorkloadRef.Name == name
+
+// the CloneSet is held back (full partition) and marked in-progress exactly when it has replicas, the update is a
+// release change, an active Rollout with a strategy references it and - with traffic routing - it runs a single revision
+//@ define rolloutRoutes(ro) = len(ite(ro.Spec.Strategy.BlueGreen != nil, ro.Spec.Strategy.BlueGreen.TrafficRoutings, ro.Spec.Strategy.Canary.TrafficRoutings)) > 0
+//@ define csIDChange(n, o) = n.Annotations["rollouts.kruise.io/rollout-id"] != "" && o.Annotations["rollouts.kruise.io/rollout-id"] != n.Annotations["rollouts.kruise.io/rollout-id"]
+//@ func (*WorkloadHandler).handleCloneSet
+//@ props C08
+//@ requires h != nil && newObj != nil && oldObj != nil
+//@ ensures held_back_and_marked: result0 ==> result1 == nil && newObj.Spec.UpdateStrategy.Partition != nil && newObj.Spec.UpdateStrategy.Partition.Type == 1 && newObj.Spec.UpdateStrategy.Partition.StrVal == "100%" && has(newObj.Annotations, "rollouts.kruise.io/in-progressing")
+//@ ensures only_for_a_matched_rollout: result0 ==> #fetch == 1 && #fetch.ret0 != nil && #fetch.ret1 == nil
+//@ ensures no_replicas_no_hold: old(newObj.Spec.Replicas != nil && *newObj.Spec.Replicas == 0) ==> !result0 && result1 == nil && #fetch == 0
+//@ ensures same_rollout_id_is_no_release_change: old(newObj.Annotations["rollouts.kruise.io/rollout-id"] != "" && oldObj.Annotations["rollouts.kruise.io/rollout-id"] == newObj.Annotations["rollouts.kruise.io/rollout-id"]) ==> !result0 && result1 == nil && #fetch == 0
+//@ ensures release_change_with_rollout_is_held: #fetch == 1 && #fetch.ret1 == nil && #fetch.ret0 != nil && (as(#fetch.ret0, "*v1beta1.Rollout").Spec.Strategy.Canary != nil || as(#fetch.ret0, "*v1beta1.Rollout").Spec.Strategy.BlueGreen != nil) && (!rolloutRoutes(as(#fetch.ret0, "*v1beta1.Rollout")) || old(newObj.Status.Replicas == newObj.Status.UpdatedReplicas)) ==> result0
+//@ ensures untouched_when_not_held: !result0 ==> newObj.Spec.UpdateStrategy.Partition == old(newObj.Spec.UpdateStrategy.Partition) && newObj.Annotations == old(newObj.Annotations)
+
+//@ func (*WorkloadHandler).handleDaemonSet
+//@ props C08
+//@ requires h != nil && newObj != nil && oldObj != nil
+//@ ensures held_back_and_marked: result0 ==> result1 == nil && newObj.Spec.UpdateStrategy.RollingUpdate != nil && newObj.Spec.UpdateStrategy.RollingUpdate.Partition != nil && *newObj.Spec.UpdateStrategy.RollingUpdate.Partition == 32767 && has(newObj.Annotations, "rollouts.kruise.io/in-progressing")
+//@ ensures only_for_a_matched_rollout: result0 ==> #fetch == 1 && #fetch.ret0 != nil && #fetch.ret1 == nil
+//@ ensures same_rollout_id_is_no_release_change: old(newObj.Annotations["rollouts.kruise.io/rollout-id"] != "" && oldObj.Annotations["rollouts.kruise.io/rollout-id"] == newObj.Annotations["rollouts.kruise.io/rollout-id"]) ==> !result0 && result1 == nil && #fetch == 0
+//@ ensures release_change_with_rollout_is_held: #fetch == 1 && #fetch.ret1 == nil && #fetch.ret0 != nil && (as(#fetch.ret0, "*v1beta1.Rollout").Spec.Strategy.Canary != nil || as(#fetch.ret0, "*v1beta1.Rollout").Spec.Strategy.BlueGreen != nil) ==> result0
+//@ ensures untouched_when_not_held: !result0 ==> newObj.Spec.UpdateStrategy.RollingUpdate == old(newObj.Spec.UpdateStrategy.RollingUpdate) && newObj.Annotations == old(newObj.Annotations)
+
+// Deployment: (a) while a release is in progress (annotation set) an edit that would un-pause the Deployment of a
+// partition-style or canary-style release is corrected; (b) otherwise a revision change of a Deployment with replicas,
+// referenced by an active Rollout (single ReplicaSet when traffic routing is configured), is admitted paused and marked.
+//@ define inProgress(d) = d.Annotations["rollouts.kruise.io/in-progressing"] != ""
+//@ func (*WorkloadHandler).handleDeployment
+//@ props C08
+//@ requires h != nil && newObj != nil && oldObj != nil
+//@ ensures in_progress_never_fetches: old(inProgress(newObj)) ==> #fetch == 0 && result1 == nil
+//@ ensures held_back_and_marked: !old(inProgress(newObj)) && result0 ==> result1 == nil && newObj.Spec.Paused && has(newObj.Annotations, "rollouts.kruise.io/in-progressing") && #fetch == 1 && #fetch.ret0 != nil && #fetch.ret1 == nil
+//@ ensures no_replicas_no_hold: !old(inProgress(newObj)) && old(newObj.Spec.Replicas != nil && *newObj.Spec.Replicas == 0) ==> !result0 && result1 == nil && #fetch == 0
+//@ ensures untouched_when_not_held: !old(inProgress(newObj)) && !result0 ==> newObj.Spec.Paused == old(newObj.Spec.Paused) && newObj.Annotations == old(newObj.Annotations)
+//@ ensures unpause_in_canary_or_partition_release_is_corrected: old(inProgress(newObj)) && old(len(newObj.Annotations["rollouts.kruise.io/original-deployment-strategy"]) == 0) ==> newObj.Spec.Paused
+
+// fetchMatchedRollout returns the first Rollout of the namespace that is not being deleted, not disabled, and whose
+// workloadRef has the object's group (any version), kind and name; nil when there is none.
+//@ define fetched() = as(iref(#List.arg2), "*v1beta1.RolloutList")
+//@ func (*WorkloadHandler).fetchMatchedRollout
+//@ props C08
+//@ requires h != nil && obj != nil
+//@ ensures found_is_active: result0 != nil ==> result1 == nil && activeRollout(result0) && gvOk(result0.Spec.WorkloadRef.APIVersion)
+// (mentions the call log and a local, so it is checked here and not offered to callers)
+//@ ensures found_matches_group_and_kind: #List == 1 && result0 != nil ==> gvGroup(result0.Spec.WorkloadRef.APIVersion) == oGv.Group && result0.Spec.WorkloadRef.Kind == oGv.Kind
+//@ ensures list_error_is_reported: #List == 1 && (#List.ret0 != nil ==> result0 == nil && result1 != nil)
+//@ loop 1 invariant #List == 1 && fetched() == rolloutList && -1 <= rangeindex && rangeindex < len(rolloutList.Items)
